@@ -306,3 +306,83 @@ def check_jump_in_finally(ctx, fi, rule='R-IDIOM/jump-in-finally'):
                              'body: the failure is not reported and the '
                              'function returns normally')
     return n
+
+
+def check_diff_contiguity(ctx, fi, rule='R-IDIOM/contiguity-of-one'):
+    """`delta = np.unique(np.diff(x)); if len(delta) != 1 or delta[0] != 1:
+    raise` tests that x is a run of consecutive integers -- and rejects a
+    run of length one, whose `diff` is empty.  A chunking that happens to
+    end in a single item (n % chunk == 1) then fails although nothing is
+    wrong.  The test has to let a single item through (`len(x) > 1 and
+    ...`)."""
+    from ..core.cfg import cfg_of
+    from ..core.defuse import rd_of, Expander
+    from ..core import terms as T
+    from ..core.guards import facts_at
+    cfg = cfg_of(fi)
+    rd = rd_of(fi)
+    ex = None
+    n = 0
+    for node in cfg.nodes:
+        if node.kind != 'if' or node.id not in rd.live:
+            continue
+        test = node.ast.test
+        hit = None
+        for c in ast.walk(test):
+            if isinstance(c, ast.Compare) and len(c.ops) == 1 \
+                    and isinstance(c.ops[0], (ast.NotEq, ast.Gt, ast.Lt)) \
+                    and isinstance(c.left, ast.Call) and isinstance(
+                        c.left.func, ast.Name) and c.left.func.id == 'len' \
+                    and c.left.args and isinstance(
+                        c.comparators[0], ast.Constant) \
+                    and c.comparators[0].value == 1 and isinstance(
+                        c.ops[0], ast.NotEq):
+                if ex is None:
+                    ex = Expander(fi)
+                t = ex.expand(c.left.args[0], node.id)
+                inner = [x for x in T.subterms(t)
+                         if x[0] == 'call' and T.call_name(x) == 'diff']
+                if inner and any(T.call_name(x) == 'unique'
+                                 for x in T.subterms(t) if x[0] == 'call'):
+                    hit = (c, inner[0])
+        if hit is None:
+            continue
+        # the taken branch raises?
+        raises = any(isinstance(x, ast.Raise) for st in node.ast.body
+                     for x in ast.walk(st))
+        if not raises:
+            continue
+        n += 1
+        src = hit[1][2][0] if hit[1][2] else None
+        # a length test of the sequence itself, in the condition or on the
+        # way to it
+        guarded = False
+
+        def is_len_gt_one(e):
+            lf = None
+            if isinstance(e, ast.Compare) and len(e.ops) == 1:
+                l, r, op = e.left, e.comparators[0], e.ops[0]
+                if isinstance(l, ast.Call) and isinstance(
+                        l.func, ast.Name) and l.func.id == 'len' \
+                        and isinstance(r, ast.Constant):
+                    if (isinstance(op, ast.Gt) and r.value == 1) or (
+                            isinstance(op, ast.GtE) and r.value == 2):
+                        lf = l.args[0] if l.args else None
+            return lf
+        for e in ast.walk(test):
+            a = is_len_gt_one(e)
+            if a is not None and src is not None and ex.expand(
+                    a, node.id) == src:
+                guarded = True
+        for (_g, t_, truth) in facts_at(cfg, rd, node.id):
+            a = is_len_gt_one(t_)
+            if a is not None and truth and src is not None \
+                    and ex.expand(a, _g.id) == src:
+                guarded = True
+        ctx.touch(fi)
+        ctx.ob(rule, f'{fi.qual}:{n - 1}', fi.loc(node.ast), guarded,
+               'a run of a single item is let through' if guarded else
+               f'`{unparse(test)[:70]}` also rejects a run of one item '
+               '(its `diff` is empty, so the number of distinct steps is 0, '
+               'not 1): a chunk that happens to hold a single item fails')
+    return n
